@@ -238,6 +238,25 @@ func runC18(c *Ctx) {
 			c.obI("R18.4", r, "RootCAs-set-when-"+o.name, !miss, "every success path on which opts."+o.name+" is present stores tls.Config.RootCAs (never falls back to the system pool)", "a success path with the option present leaves RootCAs unset")
 		}
 	}
+	// every call builds its OWN configuration: what is returned is allocated by this call — never a package-level value
+	// that later calls (and the callers' own edits of the returned config) would share
+	for _, r := range succ {
+		okOwn, bad := allOrigins(resOf(r, 0), func(o Origin) bool {
+			al, isAl := o.V.(*ssa.Alloc)
+			return isAl && (al.Parent() == f || isTransparent(al.Parent()))
+		})
+		shared := false
+		if bad != nil {
+			if _, isG := bad.V.(*ssa.Global); isG {
+				shared = true
+			}
+		}
+		if shared {
+			c.obD("R18.1", r, "config-made-by-this-call", false, "TLSClientAuth returns a tls.Config allocated by this very call", "the configuration returned is the package-level variable "+describeOrigin(bad)+": every call edits and hands out the same object")
+		} else {
+			c.obI("R18.1", r, "config-made-by-this-call", okOwn, "TLSClientAuth returns a tls.Config allocated by this very call", "origin "+describeOrigin(bad))
+		}
+	}
 	// a CA file given without an in-memory CA certificate is always read into the pool — whatever else is supplied (a
 	// LoadedCAPool beside it is the base the file is added to, not a replacement)
 	for _, r := range succ {
